@@ -53,3 +53,43 @@ CHECKS["C12"] = {
     "design_ref": "DESIGN.md section 5 (C12)",
     "note": "Only amd64 assembly vs portable can be compared on this host.",
 }
+
+_CMP_TECH = ("TLA+ state machine of the block-compression API (BlockAPI.tla: objects, pools, call keys, memo) and LZ4Block.tla; "
+             "TLC enumerates all API histories <= 3 calls and the length x period x destination grid, the harness executes them on "
+             "the real compressors, and every recorded call is judged by TLC trace validation (BlockAPI_Trace): TLC decodes the "
+             "emitted block itself for sources <= 160 bytes, checks sequence triples and harness-evaluated equalities above")
+CHECKS["C01"] = {
+    "technique": _CMP_TECH,
+    "text": "Each recorded CompressBlock call with len(dst) >= CompressBlockBound must succeed and its block must decode to the "
+            "source: at byte level TLC's own Decode of the block equals the source, at field level the triples sum to the length, "
+            "literal runs and matches equal the source slices (lemma DecodeBySeqs model-checked in MC_LZ4Block) and the real "
+            "decoder returned the source. Histories come from TLC (fresh/reused/pooled objects), inputs from exhaustive short "
+            "strings and seeded families aimed at the 64 KiB window edge.",
+    "design_ref": "DESIGN.md section 5 (C01)",
+    "note": "Sources up to 4 MiB; HC depths sampled from 0,1,2,3,16, the nine named levels, 65537, 2^31-1.",
+}
+CHECKS["C10"] = {
+    "technique": _CMP_TECH + "; StrictValid / StrictValidP predicates of LZ4Block.tla",
+    "text": "Every successful compress call (including partial successes with destinations below the bound) must yield sequence "
+            "triples satisfying StrictValid: offsets 1..65535 within the output so far, literal-only last sequence, last 5 bytes "
+            "literals, last match starting >= 12 bytes before the end; TLC evaluates the predicate on triples it parsed itself "
+            "(byte level) or on logged triples whose position chain it re-checks (field level).",
+    "design_ref": "DESIGN.md section 5 (C10)",
+    "note": "Grid: lengths 0..80 x periods 1..8 x destination 0..bound+2 (thinned in quick) plus all C01 executions.",
+}
+CHECKS["C11"] = {
+    "technique": _CMP_TECH + "; canary arena with spare capacity behind len(dst) as write sensor",
+    "text": "Each recorded call must satisfy the destination contract predicate C11 of BlockAPI_Trace: no panic, canaries behind "
+            "len(dst) intact (destinations are sub-slices with 0/1/64/4096 bytes of spare capacity), 0 <= n <= len(dst), success "
+            "whenever len(dst) >= bound, n = 0 only below the bound, and n > 0 implies a complete block for the whole source.",
+    "design_ref": "DESIGN.md section 5 (C11)",
+    "note": "Writes outside len(dst) are detected by canaries (not by TLC).",
+}
+CHECKS["C14"] = {
+    "technique": _CMP_TECH + "; determinism as memo consistency over call keys",
+    "text": "BlockAPI's Call action is enabled only if the call key (source, kind, depth, len(dst)) maps to the same output id as "
+            "before; traces of TLC-generated histories (object reuse across unrelated inputs, pooled compressors used from 4 "
+            "goroutines) and a second pass grouping all records of the run by key must be accepted.",
+    "design_ref": "DESIGN.md section 5 (C14)",
+    "note": "Block level in this version; frame-level determinism (concurrency, schedules, write partition) is added with the Writer model.",
+}
